@@ -785,3 +785,6 @@ CHECKS['C11']['gens'] = CHECKS['C11']['gens'] + ['Abort']
 CHECKS['C11']['level_text'] = CHECKS['C11']['level_text'] + (" SHARED WRITE BATCH (Props/C11Abort): over the pinned error branch of ApplyRaftRequest (IsNeedAbortError false for errTooMuchBatchSize only; "
     "AbortBatchForError clears the store's batch first, in front of its IsBatched guard): C11_failed_write_leaves_nothing_staged — a command that answered an error leaves nothing of what it had staged in the shared "
     "batch, so a later write never commits it; C11_event_batch_holds_only_successful_writes over a whole apply event.")
+
+CHECKS['C14']['level_text'] = CHECKS['C14']['level_text'] + (" WRITE-BACK CACHE: over the pinned order of Backup (HyperLogLog cache flushed before the checkpoint request is queued) and reOpenEng (fresh cache "
+    "after every restore): C14_backup_sees_cached_writes — what the checkpoint is taken of is the logical content incl. every dirty cache entry; C14_restore_forgets_cache.")
